@@ -916,8 +916,10 @@ pub fn generate(rng: &mut Rng, n: usize, tier: &str) -> Vec<Value> {
                 let i = rng.below(bytes.len() as u64) as usize;
                 bytes[i] = *rng.pick(&[27u8, b';', b'0', b'x', b'm', 7, b'~', b'R']);
             }
-            // keep clear of byte sequences whose decoding belongs to C02 (invalid UTF-8 scalars)
-            if !bytes.iter().any(|b| *b >= 0xed) {
+            // keep clear of byte sequences whose decoding belongs to C02 (invalid UTF-8 scalars), and of
+            // kitty replies whose message is not UTF-8 (String::from_utf8_lossy is not modelled)
+            let lossy_kitty = std::str::from_utf8(&bytes).is_err() && bytes.windows(3).any(|w| w == [27, 95, 71]);
+            if !bytes.iter().any(|b| *b >= 0xed) && !lossy_kitty {
                 v.push(json!({"bytes": bytes, "cuts": rand_cuts(rng, len)}));
                 continue;
             }
